@@ -1,15 +1,73 @@
 /-
 Props/C03 — Elias–Fano sequences answer exactly under any access history.
-Property theorems only; helper lemmas live in Proof/EliasFano.lean.
+Property theorems only; helper lemmas live in Proof/EliasFano*.lean.
+
+Setting of every theorem: `vs` is a non-decreasing list of `u32` values, `R ≥ 1` is the select
+sample rate (`Gen.EF_SELECT_SAMPLE_RATE`, extracted from the source, is one instance), and the
+high-bits vector has at most 2^32 bit positions (`HighFits`), which is what makes the
+`global_pos as u32` cast of the select samples lossless; `highFits_of_length` derives it from
+`3·len + 64 ≤ 2^32`.  In the model `none` is a Rust panic, so `= some …` also states that the
+operation does not panic.
 -/
-import SuccinctlyVerif.Proof.EliasFano
+import SuccinctlyVerif.Proof.EliasFanoSelect
+import SuccinctlyVerif.Proof.EliasFanoPred
 namespace SV.Props.C03
 open SV SV.EF
 
-/-- Whenever `build` returns, the encoded sequence reports the input's length. -/
-theorem len_eq_partial (R : Nat) (vs : List Nat) (ef : EliasFano) (h : build R vs = some ef) :
-    ef.len = vs.length := build_len R vs ef h
+/-- The sample positions fit `u32`: the high-bits vector has at most 2^32 bits. -/
+def HighFits (ef : EliasFano) : Prop := 64 * ef.highBits.length ≤ 2 ^ 32
 
-example : (build 256 [1, 5, 5, 900]).map (·.len) = some 4 := by decide +kernel
+/-- `build` does not panic on a non-decreasing `u32` sequence. -/
+theorem build_total (R : Nat) (vs : List Nat) (hs : EFSpec.Sorted vs) (hu : EFSpec.AllU32 vs) :
+    ∃ ef, build R vs = some ef :=
+  let ⟨ef, h, _⟩ := build_ok R vs hs hu; ⟨ef, h⟩
+
+/-- `len()` is the length of the sequence. -/
+theorem len_eq (R : Nat) (vs : List Nat) (hs : EFSpec.Sorted vs) (hu : EFSpec.AllU32 vs)
+    (ef : EliasFano) (h : build R vs = some ef) : ef.len = vs.length := by
+  obtain ⟨ef', h', hb⟩ := build_ok R vs hs hu
+  rw [h] at h'; cases h'; exact hb.len
+
+/-- `universe()` is the last (largest) element + 1, and 0 for the empty sequence. -/
+theorem universe_eq (R : Nat) (vs : List Nat) (hs : EFSpec.Sorted vs) (hu : EFSpec.AllU32 vs)
+    (ef : EliasFano) (h : build R vs = some ef) : ef.univ = EFSpec.universeOf vs := by
+  obtain ⟨ef', h', hb⟩ := build_ok R vs hs hu
+  rw [h] at h'; cases h'; exact hb.univ
+
+/-- `get(i)` is element `i` for every `i` (`None` past the end), and never panics. -/
+theorem get_eq (R : Nat) (hR : 0 < R) (vs : List Nat) (hs : EFSpec.Sorted vs) (hu : EFSpec.AllU32 vs)
+    (ef : EliasFano) (h : build R vs = some ef) (hf : HighFits ef) (i : Nat) :
+    get R ef i = some vs[i]? := by
+  obtain ⟨ef', h', hb⟩ := build_ok R vs hs hu
+  rw [h] at h'; cases h'; exact hb.get_eq hs hu hR hf i
+
+/-- `predecessor(v)` is the plain left-to-right scan keeping the last index whose element is
+`≤ v` … -/
+theorem predecessor_eq (R : Nat) (hR : 0 < R) (vs : List Nat) (hs : EFSpec.Sorted vs)
+    (hu : EFSpec.AllU32 vs) (ef : EliasFano) (h : build R vs = some ef) (hf : HighFits ef) (v : Nat) :
+    predecessor R ef v = some (EFSpec.predecessor vs v) :=
+  predecessor_eq_scan R ef vs (len_eq R vs hs hu ef h) (get_eq R hR vs hs hu ef h hf) hs v
+
+/-- … which on a non-decreasing sequence is `None` exactly when every element exceeds `v` … -/
+theorem predecessor_none_iff (vs : List Nat) (v : Nat) :
+    EFSpec.predecessor vs v = none ↔ ∀ x ∈ vs, v < x := predScan_none_iff vs v
+
+/-- … and otherwise the last index holding the largest element `≤ v`. -/
+theorem predecessor_some (vs : List Nat) (hs : EFSpec.Sorted vs) (v i x : Nat)
+    (h : EFSpec.predecessor vs v = some (i, x)) :
+    vs[i]? = some x ∧ x ≤ v ∧
+    (∀ j y : Nat, vs[j]? = some y → y ≤ v → y ≤ x) ∧
+    (∀ j : Nat, vs[j]? = some x → j ≤ i) := predScan_some vs hs v i x h
+
+-- non-vacuity: a sequence with duplicates and a gap, queried through the generated sample rate
+example : (build Gen.EF_SELECT_SAMPLE_RATE [1, 5, 5, 900]).map (·.len) = some 4 := by decide +kernel
+example : (build Gen.EF_SELECT_SAMPLE_RATE [1, 5, 5, 900]).bind (get Gen.EF_SELECT_SAMPLE_RATE · 3) = some (some 900) := by
+  decide +kernel
+example : (build Gen.EF_SELECT_SAMPLE_RATE [1, 5, 5, 900]).bind (predecessor Gen.EF_SELECT_SAMPLE_RATE · 7) = some (some (2, 5)) := by
+  decide +kernel
+example : EFSpec.Sorted [1, 5, 5, 900] ∧ EFSpec.AllU32 [1, 5, 5, 900] := by
+  constructor
+  · unfold EFSpec.Sorted; decide
+  · unfold EFSpec.AllU32; decide
 
 end SV.Props.C03
